@@ -53,6 +53,14 @@ def plan(tier, seed):
              (["pixee:python/url-sandbox", "pixee:python/secure-random"], None), (None, ["pixee:python/secure-random"]), (None, ["pixee:python/secure-*"]), (None, None), (["sonar:python/secure-random"], None), (["*"], None), (None, ["*"])]
     for inc, exc in fixed: cases.append((inc, exc, False)); cases.append((inc, exc, True))
     n = 60 if tier == "quick" else 800
+    def covering(i):
+        n_ = i.split("/")[1]; k_ = rnd.randint(2, max(2, len(n_) - 1))
+        return rnd.choice((i[: len(i) - len(n_) + k_] + "*", "*" + n_[-k_:], i.split("/")[0] + "/*", i.split(":")[0] + ":*", "*" + n_[1:k_] + "*"))
+    # one codemod reached by several entries of the same include list (a wildcard and the literal id it covers, in either order; two overlapping wildcards): it runs once, at its first position
+    for q in range(12 if tier == "quick" else 120):
+        i = rnd.choice(ids); other = rnd.choice(ids)
+        inc = {0: [covering(i), i], 1: [i, covering(i)], 2: [covering(i), other, i], 3: [covering(i), covering(i)], 4: [covering(i), "unknown:python/x", i, covering(other)], 5: [i, other, covering(i), other]}[q % 6]
+        cases.append((inc, None, i.split(":")[0] != "pixee" and rnd.random() < 0.5))
     for _ in range(n):
         if rnd.random() < 0.5:
             inc = [rnd.choice((rnd.choice(ids), pat(), pat(), "unknown:python/" + rnd.choice(names))) for _ in range(rnd.randint(1, 4))]; exc = None
